@@ -203,6 +203,19 @@ func chanOf(ts []*tree.Tree) <-chan tree.Trees {
 	return ch
 }
 
+// dumpAll: the alpha dumps of the trees (what a writer must not change)
+func dumpAll(ts []*tree.Tree) string {
+	var b strings.Builder
+	for _, t := range ts {
+		d, ok := dumpTree(t)
+		if !ok {
+			d = "MALFORMED"
+		}
+		b.WriteString(d + "|")
+	}
+	return b.String()
+}
+
 // writeDoc runs the writer `format` of the library on the trees.
 func writeDoc(format string, ts []*tree.Tree) (text, wres string) {
 	var err error
@@ -368,11 +381,14 @@ func treeList(g *core.G, k int) (ns []*core.N, flags []string) {
 	first, _ := g.Tree(o)
 	ns = append(ns, first)
 	ntips := len(first.TipNames())
-	mixed := k > 1 && g.Chance(0.08)
+	mixed := k > 1 && (g.Chance(0.08) || forceMixed)
 	for i := 1; i < k; i++ {
 		o2 := treeOpts(g)
 		o2.MinTips, o2.MaxTips = ntips, ntips
-		if mixed && i == k-1 {
+		if mixed && forceMixed && (i == k-1 || g.Chance(0.5)) {
+			// a later tree brings taxa that sort BEFORE the ones already seen ("a…" < "t…"), or between them
+			o2.TipPrefix = g.Pick([]string{"a", "a", "t1", "s"})
+		} else if mixed && i == k-1 {
 			if g.Chance(0.5) {
 				o2.TipPrefix = "u"
 			} else {
@@ -527,7 +543,17 @@ func doChain(c *core.Ctx, format, via string, ns []*core.N) {
 		return
 	}
 	ts := build(ns)
+	before := dumpAll(ts)
 	text, wres := writeDoc(format, ts)
+	// a writer must leave the trees it was given as they were (WriteNexus --translate renames a CLONE):
+	// the trees are dumped before and after the call, and written a second time
+	if wres == "ok" {
+		if dumpAll(ts) != before {
+			wres = "mutated-input"
+		} else if text2, wres2 := writeDoc(format, ts); wres2 != "ok" || text2 != text {
+			wres = "mutated-input"
+		}
+	}
 	if wres != "ok" {
 		c.Emit("C13.chain", format, via, core.Dumps(ns), wres, "", "", "", "skip")
 		return
@@ -739,8 +765,20 @@ func multiCase(c *core.Ctx, i int) {
 		s += nl + nl
 		flags["trailing-blank-lines"] = true
 	}
+	if g.Chance(0.12) {
+		// white space only after the last tree (a last line of blanks, with or without a line end): no
+		// record may come out of it — the unterminated-tree test of ReadMultiTrees trims the text first
+		if !strings.HasSuffix(s, "\n") {
+			s += nl
+		}
+		s += g.Pick([]string{" ", "\t", "  ", " \t "})
+		if g.Chance(0.5) {
+			s += nl
+		}
+		flags["trailing-blankonly"] = true
+	}
 	var fl []string
-	for _, k := range []string{"crlf", "broken", "unterminated", "wrap", "unsafe-wrap", "blank-before-break", "blankline", "blankonly", "trailws", "leadws", "nonl", "trailing-blank-lines"} {
+	for _, k := range []string{"crlf", "broken", "unterminated", "wrap", "unsafe-wrap", "blank-before-break", "blankline", "blankonly", "trailws", "leadws", "nonl", "trailing-blank-lines", "trailing-blankonly"} {
 		if flags[k] {
 			fl = append(fl, k)
 		}
@@ -1051,7 +1089,7 @@ func reformatCase(c *core.Ctx, i int) {
 			broken = true
 		}
 	}
-	if infmt == "newick" && g.Chance(0.2) {
+	if infmt == "newick" && g.Chance(0.35) {
 		// a broken tree in the input: the glue must stop with a non-zero exit (newick output keeps the trees before it)
 		lines := strings.Split(strings.TrimSuffix(text, "\n"), "\n")
 		j := g.Intn(len(lines) + 1)
@@ -1151,6 +1189,154 @@ func doReformat(c *core.Ctx, infmt, outfmt string, translate bool, omode string,
 		br = "1"
 	}
 	c.Emit("C13.reformat", infmt, outfmt, tr, omode, br, core.Dumps(ns), core.Escape(text), aux, exit, core.Escape(out), outx, m, core.Escape(cliError(r)))
+}
+
+// ---- the format flag (cmd/root.go PersistentPreRun: switch rootInputFormat … default newick)
+
+var flagSpellings = []string{"newick", "nexus", "phyloxml", "nextstrain", "NEXUS", "Nexus", "Newick", "nwk", "nex", "xml", "", "newick ", " nexus", "phyloXML", "json", "nexus1", "0", "1"}
+
+// fmtFlagCase: `gotree reformat newick --format <value> -i <a Newick or Nexus file>`: the value selects the
+// reader; the four documented words must select theirs (oracle), any other value what the model says.
+func fmtFlagCase(c *core.Ctx, i int) {
+	g := c.G
+	docfmt := []string{"newick", "nexus"}[i%2]
+	pool := append(append([]string{}, flagSpellings...), srcFormatFlags...)
+	flag := pool[(i/2)%len(pool)]
+	if g.Chance(0.35) {
+		flag = docfmt
+	}
+	ns, _ := treeList(g, 1+g.Intn(3))
+	text, _, ok := inputDoc(docfmt, ns)
+	if !ok {
+		return
+	}
+	doFmtFlag(c, flag, docfmt, ns, text)
+}
+
+func doFmtFlag(c *core.Ctx, flag, docfmt string, ns []*core.N, text string) {
+	in := c.TmpFile(text)
+	defer os.Remove(in)
+	r := c.RunCLI("", 20*time.Second, "reformat", "newick", "--format", flag, "-i", in)
+	out := r.Stdout
+	if r.Exit != 0 {
+		if j := strings.Index(out, "Usage:"); j >= 0 {
+			out = out[:j]
+		}
+		trimmed := strings.TrimSuffix(out, "\n")
+		if j := strings.LastIndex(trimmed, "\n"); j >= 0 {
+			out = trimmed[:j+1]
+		} else {
+			out = ""
+		}
+	}
+	exit := "ok"
+	if r.Timeout {
+		exit = "timeout"
+	} else if r.Exit != 0 {
+		exit = "fail"
+	}
+	m := ""
+	if strings.TrimSpace(out) != "" {
+		m, _ = readers(c, "newick", out)
+	}
+	c.Emit("C13.fmtflag", core.Escape(flag), docfmt, core.Dumps(ns), core.Escape(text), xmlTree(text), exit, core.Escape(out), m)
+}
+
+// keywordLabelCases: one Nexus chain per case literal of the lexer's keyword switch IN THE WORKING TREE that is
+// not one of the words the Spec excludes (labelOK): a key word added to the lexer is met by a tip of that name.
+func keywordLabelCases(c *core.Ctx) {
+	known := map[string]bool{}
+	for _, w := range []string{"#nexus", "begin", "data", "characters", "taxa", "taxlabels", "trees", "tree", "translate", "dimensions", "ntax", "nchar", "format", "datatype", "missing", "gap", "matrix", "end"} {
+		known[w] = true
+	}
+	for _, w := range srcKeywords {
+		if known[w] || strings.ContainsAny(w, " \t\n\r()[]:;,='\"<>&") || w == "" {
+			continue
+		}
+		o := core.DefaultOpts()
+		o.MinTips, o.MaxTips = 4, 6
+		a, _ := c.G.Tree(o)
+		b, _ := c.G.Tree(o)
+		for _, x := range []*core.N{a, b} {
+			var rec func(n *core.N) bool
+			rec = func(n *core.N) bool {
+				if len(n.Kids) == 0 {
+					n.Name = w
+					return true
+				}
+				return rec(n.Kids[0])
+			}
+			rec(x)
+			core.NumberEdges(x)
+		}
+		for _, f := range []string{"nexus", "nexustr"} {
+			doChain(c, f, "lib", []*core.N{a, b})
+		}
+	}
+}
+
+var srcKeywords, srcFormatFlags []string
+
+// forceMixed makes treeList draw lists whose later trees bring new taxa that sort before / between the taxa
+// already seen (the translate table of WriteNexus numbers taxa in order of discovery while TAXLABELS is sorted)
+var forceMixed bool
+
+// mixedTranslateCase: heterogeneous lists through the Nexus writer with and without translate table
+func mixedTranslateCase(c *core.Ctx, i int) {
+	forceMixed = true
+	ns, _ := treeList(c.G, 2+c.G.Intn(3))
+	forceMixed = false
+	doChain(c, []string{"nexustr", "nexustr", "nexus"}[i%3], "lib", ns)
+	// the same list through `gotree reformat nexus [--translate]` (Newick file in, Nexus out, read back)
+	if c.Gotree != "" && i%3 != 1 {
+		if text, aux, ok := inputDoc("newick", ns); ok {
+			doReformat(c, "newick", "nexus", i%3 == 0, "stdout", false, ns, text, aux)
+		}
+	}
+}
+
+// boundaryCase: a LAST line whose length is an exact multiple of bufio's 4096-byte buffer (leading blanks pad
+// it): ReadLine then hands ReadUntilSemiColon a full chunk that ends with ';' followed by an EMPTY remainder
+// (or a remainder of blanks only); also such a line in the middle of the file.
+func boundaryCase(c *core.Ctx, i int) {
+	g := c.G
+	o := core.DefaultOpts()
+	o.MinTips, o.MaxTips = 150, 500
+	o.Lengths = 1
+	a, _ := g.Tree(o)
+	o.MinTips, o.MaxTips = 3, 5
+	b, _ := g.Tree(o)
+	core.NumberEdges(a)
+	core.NumberEdges(b)
+	ts := build([]*core.N{a, b})
+	long, small := ts[0].Newick(), ts[1].Newick()
+	pad := strings.Repeat(" ", (4096-len(long)%4096)%4096)
+	// every third round the neighbours of the boundary: one byte less / one byte more than k*4096
+	switch (i / 3) % 3 {
+	case 1:
+		if len(pad) > 0 {
+			pad = pad[1:]
+		} else {
+			pad = strings.Repeat(" ", 4095)
+		}
+	case 2:
+		pad += " "
+	}
+	line := pad + long // len(line) % 4096 == 0 (or ±1), ends with ';'
+	tail := g.Pick([]string{"", "", " ", "\t ", "   "})
+	nl := "\n"
+	if i%4 == 3 {
+		nl = "\r\n"
+	}
+	A, B := "T"+a.Dump()+"|", "T"+b.Dump()+"|"
+	switch i % 3 {
+	case 0: // the only tree
+		doMulti(c, "boundary4096,last", A, line+tail+nl)
+	case 1: // the last of two
+		doMulti(c, "boundary4096,last", B+A, small+nl+line+tail+nl)
+	default: // in the middle
+		doMulti(c, "boundary4096,middle", B+A+B, small+nl+line+tail+nl+small+nl)
+	}
 }
 
 // firstCLICase: `gotree compare edges -i doc -c doc -f fmt`: the reference is read by the single-tree reader,
@@ -1707,6 +1893,16 @@ func Replay(c *core.Ctx, lines []string) {
 				panic(err)
 			}
 			doReformat(c, f[1], f[2], f[3] == "1", f[4], f[5] == "1", parseDumps(f[6]), text, f[8])
+		case f[0] == "C13.fmtflag" && len(f) >= 5:
+			flag, err := core.Unescape(f[1])
+			if err != nil {
+				panic(err)
+			}
+			text, err := core.Unescape(f[4])
+			if err != nil {
+				panic(err)
+			}
+			doFmtFlag(c, flag, f[2], parseDumps(f[3]), text)
 		case f[0] == "C13.clifirst" && len(f) >= 5:
 			text, err := core.Unescape(f[3])
 			if err != nil {
@@ -1734,6 +1930,10 @@ func Run(c *core.Ctx) {
 		Replay(c, core.ReadRequests(c.Arg))
 		return
 	}
+	if c.Repo != "" {
+		srcKeywords, srcFormatFlags = SourceKeywords(c.Repo), SourceFormatFlags(c.Repo)
+	}
+	keywordLabelCases(c)
 	n := c.Scale(400, 6000)
 	for i := 0; i < n; i++ {
 		chainCase(c, i)
@@ -1746,6 +1946,12 @@ func Run(c *core.Ctx) {
 	}
 	for i := 0; i < c.Scale(20, 300); i++ {
 		outsideCase(c)
+	}
+	for i := 0; i < c.Scale(9, 36); i++ {
+		boundaryCase(c, i)
+	}
+	for i := 0; i < c.Scale(18, 240); i++ {
+		mixedTranslateCase(c, i)
 	}
 	for i := 0; i < c.Scale(80, 1500); i++ {
 		docCase(c, i)
@@ -1766,11 +1972,14 @@ func Run(c *core.Ctx) {
 			ns, _ := treeList(c.G, 1+c.G.Intn(3))
 			doChain(c, format, "cli", ns)
 		}
-		for i := 0; i < c.Scale(45, 600); i++ {
+		for i := 0; i < c.Scale(60, 600); i++ {
 			reformatCase(c, i)
 		}
 		for i := 0; i < c.Scale(15, 200); i++ {
 			firstCLICase(c, i)
+		}
+		for i := 0; i < c.Scale(40, 400); i++ {
+			fmtFlagCase(c, i)
 		}
 	}
 }
